@@ -191,6 +191,21 @@ CLAIMED = {
              "on BytesIO and real files incl. truncations at every struct boundary, all table keys +-1, every key pair.",
         design="§4 C18",
     ),
+    "C10": dict(
+        text="For every grammar table satisfying the decidable obligations PrintWF/IdsOK/KwClean/TerminatedWF (re-proved by decide +kernel against "
+             "Lark's loaded grammar - 246 compiled rules folded into 171 forms with a self-check by re-expansion - on each run), every derivation's "
+             "Lark tree is reconstructed to exactly its source token sequence, whichever production and split the Reconstructor picks "
+             "(print_eq_source, print_any_choice); as_text's whitespace post-processor and join preserve the tokens (postproc_tokens, join_eq_concat), "
+             "and for every source the model parser accepts, the regenerated text lexes to the same tokens and parses back to the identical "
+             "derivation (roundtrip_tokens, reparse_same_tree). Table obligations additionally state that every alias is printed under its own "
+             "keyword (gen_aliasesDistinctPerKeyword, gen_labelNaming with a pinned exception list) - exactly what the repaired module_x64 alias bug violated.",
+        note="Lark's LALR parser, contextual lexer and Earley-based Reconstructor are modelled and compared, not verified: tree, printed items, exact "
+             "as_text text, re-lex and re-parse on ~3.2k profiles (quick) / ~55k (thorough) covering every form, plus mutated/hand-made trees, token "
+             "soups, arbitrary postproc inputs and malformed sentences. unique_readability for arbitrary derivations is not proved (kept as "
+             "unique_readability_full; ParseWF is a checked obligation, and the reparse result holds for the model parser). The '# dns_resolver' "
+             "production is unreachable from text.",
+        design="§4 C10",
+    ),
 }
 
 REASON_PENDING = "not claimed yet: model/theorems/correspondence for this property are not built in this revision (see DESIGN.md §7 build order)"
